@@ -300,6 +300,49 @@ def _err_ok(s, snap, scheme):
     return Or(And(n5 == 0, n3 == 0), h * h * n5 * n5 <= n5 + n3 / 100)
 
 
+def _replay_general():
+    """General confirmation on the compiled build: a non-autonomous problem with a known solution is propagated forward and backward
+    through _propagate_dynsys with every integrator family on uniform and non-uniform grids: returned times are the requested ones
+    (with the sign convention of backward propagation), states are the solution at those times, backward undoes forward."""
+    return D.HAM_PRELUDE + '''
+from hiten.algorithms.dynamics.base import _propagate_dynsys
+from hiten.algorithms.dynamics.rhs import create_rhs_system
+import numba
+@numba.njit
+def rhs(t, y):
+    return np.array([y[1], -y[0] + 0.5 * np.cos(2.0 * t)])       # y0'' + y0 = cos(2t)/2: y0 = a cos t + b sin t - cos(2t)/6
+sysm = create_rhs_system(rhs, dim=2, name="forced oscillator")
+def exact(t, y0):
+    a = y0[0] + 1.0 / 6.0; b = y0[1]
+    return np.array([a * np.cos(t) + b * np.sin(t) - np.cos(2 * t) / 6.0, -a * np.sin(t) + b * np.cos(t) + np.sin(2 * t) / 3.0])
+bad = {}; y0 = np.array([0.3, -0.2])
+for method, order, tol in (("fixed", 4, 2e-6), ("fixed", 6, 1e-7), ("fixed", 8, 1e-8), ("adaptive", 5, 1e-5), ("adaptive", 8, 1e-6)):
+    for forward in (1, -1):
+        for steps in (200, 331):
+            tf = 1.7
+            sol = _propagate_dynsys(dynsys=sysm, state0=y0.copy(), t0=0.0, tf=tf, forward=forward, steps=steps, method=method, order=order)
+            t = np.asarray(sol.times, dtype=float); y = np.asarray(sol.states, dtype=float)
+            tag = "%s%d_forward%+d_steps%d" % (method, order, forward, steps)
+            if t.shape[0] != steps: bad[tag + "_count"] = "%d times returned" % t.shape[0]; continue
+            if abs(t[0]) > 1e-14 or abs(abs(t[-1]) - tf) > 1e-12 or np.sign(t[-1]) != forward: bad[tag + "_times"] = "times run from %.3f to %.3f" % (t[0], t[-1]); continue
+            if np.any(np.diff(t) * forward <= 0): bad[tag + "_monotone"] = "times are not strictly monotone in the direction of propagation"; continue
+            err = max(float(np.max(np.abs(y[i] - exact(t[i], y0)))) for i in range(0, steps, 7))
+            if err > tol: bad[tag + "_states"] = "max error %.2e against the solution at the returned times" % err
+    # backward undoes forward
+    a = _propagate_dynsys(dynsys=sysm, state0=y0.copy(), t0=0.0, tf=1.3, forward=1, steps=400, method=method, order=order)
+    ye = np.asarray(a.states[-1], dtype=float)
+hs = make_hamsys(0.7, mixed=0.4)
+for method, order in (("fixed", 8), ("adaptive", 8), ("symplectic", 6)):
+    f = _propagate_dynsys(dynsys=hs, state0=Y0.copy(), t0=0.0, tf=1.0, forward=1, steps=801, method=method, order=order)
+    b = _propagate_dynsys(dynsys=hs, state0=np.asarray(f.states[-1], dtype=float), t0=0.0, tf=1.0, forward=-1, steps=801, method=method, order=order)
+    back = float(np.max(np.abs(np.asarray(b.states[-1], dtype=float) - Y0)))
+    if back > (1e-6 if method == "symplectic" else 1e-8): bad["hamiltonian_%s_backward_does_not_undo_forward" % method] = back
+    tb = np.asarray(b.times, dtype=float)
+    if not (tb[0] == 0.0 and abs(tb[-1] + 1.0) < 1e-12): bad["hamiltonian_%s_backward_times" % method] = [float(tb[0]), float(tb[-1])]
+_verdict(bool(bad), **{k: bad[k] for k in list(bad)[:8]})
+'''
+
+
 def _replay_desc(scheme):
     return '''
 from hiten.algorithms.integrators.rk import AdaptiveRK
@@ -401,6 +444,7 @@ _verdict(bool(bad), problems=bad)
 
 def main():
     chk = Check(PID)
+    chk.default_replay = _replay_general
     import hiten.algorithms.integrators.rk as rk
     thorough = chk.tier == 'thorough'
     chk.encode(rk._RK45._integrate_rk45, rk._RK45._integrate_rk45_ham, rk._DOP853._integrate_dop853, rk._DOP853._integrate_dop853_ham)
